@@ -32,6 +32,7 @@ import (
 	"github.com/rpcpool/yellowstone-faithful/zzverif/c14chain"
 	"github.com/rpcpool/yellowstone-faithful/zzverif/cargen"
 	"github.com/rpcpool/yellowstone-faithful/zzverif/ev"
+	"github.com/urfave/cli/v2"
 	"google.golang.org/protobuf/proto"
 )
 
@@ -214,14 +215,36 @@ func TestVerifC14Server(t *testing.T) {
 		c14SrvRun(rec, rc, c14chain.Build(rc.Data), c14chain.Build(rc.Meta), nil)
 		return
 	}
-	rec := ev.New("C14", "server")
+	part := "server"
+	afterGsfa := os.Getenv("VERIF_C14_AFTER_GSFA") != ""
+	if afterGsfa {
+		part = "server-after-gsfa-index"
+	}
+	rec := ev.New("C14", part)
 	defer rec.Flush()
 	rec.Rule("distinct = (entry point, faulted chain, frame count >= 2, layout + fan-out, checksum kind, fault kind or none)")
 	seed := ev.Seed()
 	rng := rand.New(rand.NewSource(seed*0xC14 + 2))
-	dir := filepath.Join(ev.Scratch(), "c14srv")
+	dir := filepath.Join(ev.Scratch(), "c14srv-"+part)
 	os.MkdirAll(dir, 0o755)
 	defer os.RemoveAll(dir)
+	if afterGsfa {
+		// the same workload in a process that has run the repository's `index gsfa` command (default flags)
+		// (default flags except the signature check, which generated transactions cannot pass) before: process-wide state a command leaves behind must not change what reassembly accepts
+		gcar := filepath.Join(dir, "g.car")
+		if _, err := cargen.Generate(gcar, cargen.Opts{Epoch: 2, Seed: seed + 99, NSlots: 40, MaxEntries: 2, MaxTx: 3, MultiFrameOneIn: 4, VoteOneIn: 4, FailOneIn: 4}); err != nil {
+			t.Fatalf("c14: cargen: %v", err)
+		}
+		gidx, gtmp := filepath.Join(dir, "gidx"), filepath.Join(dir, "gtmp")
+		os.MkdirAll(gidx, 0o755)
+		os.MkdirAll(gtmp, 0o755)
+		app := &cli.App{Commands: []*cli.Command{newCmd_Index()}}
+		if err := app.Run([]string{"x", "index", "gsfa", "--epoch", "2", "--network", "mainnet", "--tmp-dir", gtmp, "--sigverify=false", gcar, gidx}); err != nil {
+			rec.Inconclusive("the preceding `index gsfa` run failed: " + err.Error())
+			return
+		}
+		rec.Note("preceding_command", "index gsfa --epoch 2 --network mainnet --sigverify=false (other flags at their defaults), run in this process")
+	}
 	m, err := cargen.Generate(filepath.Join(dir, "m.car"), cargen.Opts{Epoch: 1, Seed: seed*31 + 14, NSlots: ev.Pick(80, 1000), MaxEntries: 2, MaxTx: 4,
 		BigOneIn: 4, TinyOneIn: 9, VoteOneIn: 4, FailOneIn: 4, V0OneIn: 3})
 	if err != nil {
@@ -237,13 +260,20 @@ func TestVerifC14Server(t *testing.T) {
 		pls = append(pls, c14Payloads{name: fmt.Sprintf("modeltx-%d", i), raw: tx.Raw, metaRaw: mr, parseable: true})
 	}
 	nModel := len(pls)
-	if lim := ev.Pick(240, 3000); nModel > lim {
+	lim := ev.Pick(240, 3000)
+	if afterGsfa {
+		lim = ev.Pick(60, 500)
+	}
+	if nModel > lim {
 		pls = pls[:lim]
 		nModel = lim
 	}
 	// arbitrary payloads for the byte-level entry point
 	sizes := []int{1, 2, 60, 127, 128, 1232, 16384, 65535, 65536, 204800}
 	nRand := ev.Pick(80, 1000)
+	if afterGsfa {
+		nRand = ev.Pick(20, 200)
+	}
 	for i := 0; i < nRand; i++ {
 		var ld, lm int
 		if i < len(sizes) {
